@@ -47,6 +47,12 @@ def run(rep, tier, seed):
         if conf[0].startswith("fat32") and tier == "quick" and i % 3:
             conf = confs[rng.below(7)]
         scripts.append(remount_session(rng, conf, 36, 3))
+    small512 = [c for c in confs if c[0] in ("fat12-small", "fat12-1fat", "fat16-min", "fat32-min", "fat12-default-1M")]
+    for i in range(24 if tier == "quick" else 300):
+        conf = small512[i % len(small512)]
+        if tier == "quick" and conf[0] == "fat32-min" and i > 10:
+            conf = small512[0]
+        scripts.append(sessions.dir_heavy_session(rng, conf, nfiles=rng.range(8, 16)))
     judged = sessions.run_judged(scripts, flags=("tree",), shards=16)
     remounts = 0
     for jd in judged:
